@@ -40,6 +40,9 @@ func sortedKV(m map[string]string) string {
 	return strings.Join(s, ",")
 }
 
+// c19Ledger is the ledger provider of the most recently built "encoding" configuration.
+var c19Ledger *ledger
+
 // c19Build builds a container for a configuration. The handler echoes path parameters, the
 // attribute a filter derived from a request header, and the selected route.
 func c19Build(cfg c19Cfg) *restful.Container {
@@ -73,7 +76,8 @@ func c19Build(cfg c19Cfg) *restful.Container {
 		c.Filter(c.OPTIONSFilter)
 	case "encoding":
 		c.EnableContentEncoding(true)
-		restful.SetCompressorProvider(restful.NewBoundedCachedCompressors(1, 1))
+		c19Ledger = newLedger(restful.NewBoundedCachedCompressors(1, 1))
+		restful.SetCompressorProvider(c19Ledger)
 	}
 	ws := new(restful.WebService).Path("/api")
 	if cfg.Kind == "filters" {
@@ -126,6 +130,11 @@ func c19Build(cfg c19Cfg) *restful.Container {
 	}
 	ws2.Route(ws2.GET("/thing/{tid}").If(cond).To(echo("thing")))
 	c.Add(ws2)
+	// a plain http.Handler behind the container filters
+	c.HandleWithFilter("/hwf/", http.HandlerFunc(func(w http.ResponseWriter, r *http.Request) {
+		pt("plain.handler")
+		io.WriteString(w, "plain "+r.URL.Path+" who="+r.Header.Get("X-Who"))
+	}))
 	return c
 }
 
@@ -143,6 +152,7 @@ func c19Q() []h.Req {
 		{Method: "OPTIONS", Segs: []string{"api", "other", "n"}, Hdr: [][2]string{{"Origin", corsE1}, {"Access-Control-Request-Method", "PUT"}}},
 		{Method: "DELETE", Segs: []string{"api", "other", "n"}, Hdr: [][2]string{{"X-Who", "erin"}}},
 		{Method: "GET", Segs: []string{"b", "thing", "5"}, Hdr: [][2]string{{"X-Who", "frank"}}},
+		{Method: "GET", Segs: []string{"hwf", "file"}, Hdr: [][2]string{{"X-Who", "gina"}}},
 	}
 }
 
@@ -295,6 +305,11 @@ func checkC19(run *h.Run) {
 					}
 					states++
 					trans += int64(len(seq))
+					if cfg.Kind == "encoding" {
+						if ms := c19Ledger.report(true); len(ms) > 0 {
+							run.Violate("compressor-ledger", "", fmt.Sprintf("%+v serve=%v ; after %v : %s", cfg, serve, seq, ms[0]), c19Case{cfg, seq, serve, trace, ms[0], ""}, nil)
+						}
+					}
 					last := seq[len(seq)-1]
 					if want := fresh[fmt.Sprint(cfg, last)]; got != want {
 						run.Violate("history-dependence", "", fmt.Sprintf("%+v serve=%v trace=%v ; after %v the request %v is answered %s ; on a fresh container (trace off) %s", cfg, serve, trace, seq[:len(seq)-1], q[last], got, want),
@@ -332,7 +347,7 @@ func checkC19(run *h.Run) {
 	run.Cov["distinct_nontrivial"] = states
 	run.Cov["distinct_outcomes"] = outcomes.Len()
 	run.Cov["exhaustive"] = true
-	run.Cov["rule"] = fmt.Sprintf("E2: configurations {plain, 3 container + service + route filters, CORS with computed methods, OPTIONS filter, encoding with bounded(1) provider} x {CurlyRouter, RouterJSR311} x entry {Dispatch, ServeHTTP} x trace {off, on}: every sequence over the request set Q (%d requests: two GETs on one template, POST entity, 404, 405, CORS preflight, a handler that dispatches a nested request, a second template with other methods incl. its preflight and 405, a second service) of length <= %d on one container, plus the 1000-fold repetition of each request; the last response (status, all headers, decoded body with echoed parameters / attribute / selected route) must equal the response on a fresh container with trace off. E3 (instrumented): every pair (thorough: also triples) of Q concurrently, all schedules within the preemption bound, same oracle per request, happens-before race detection; then the free-running -race pass. Every history is non-trivial.", len(q), depth)
+	run.Cov["rule"] = fmt.Sprintf("E2: configurations {plain, 3 container + service + route filters, CORS with computed methods, OPTIONS filter, encoding with bounded(1) provider} x {CurlyRouter, RouterJSR311} x entry {Dispatch, ServeHTTP} x trace {off, on}: every sequence over the request set Q (%d requests: two GETs on one template, POST entity, 404, 405, CORS preflight, a handler that dispatches a nested request, a second template with other methods incl. its preflight and 405, a second service, a plain handler behind HandleWithFilter) of length <= %d on one container, plus the 1000-fold repetition of each request; the last response (status, all headers, decoded body with echoed parameters / attribute / selected route) must equal the response on a fresh container with trace off. E3 (instrumented): every pair (thorough: also triples) of Q concurrently, all schedules within the preemption bound, same oracle per request, happens-before race detection; then the free-running -race pass. Every history is non-trivial.", len(q), depth)
 	run.Assume = []string{"differential: the fresh-container response is the reference; handlers also self-check that their own view does not change while they run"}
 	if f := e3Part["C19"]; f != nil {
 		f(run)
